@@ -9,7 +9,7 @@ NAMES = "abcdefg"
 MKD_KINDS = ["int", "mix", "tuple", "str", "fz", "bound", "fneq", "falsy"]
 SD_KINDS = ["fn", "bound", "fneq"]
 BAD_KINDS = ["list", "dict", "set", "bytearray", "ueq"]
-OBS_KINDS = ["get", "gett", "k2k", "v2k", "in", "iter", "misc", "hasattr", "call", "bad"]
+OBS_KINDS = ["get", "gett", "k2k", "v2k", "in", "iter", "misc", "hasattr", "call", "bad", "tup", "tup", "no"]
 
 
 class Fn(object):
@@ -118,7 +118,7 @@ def make_bad(kind):
 
 
 # ------------------------------------------------------------------ generators
-def ops_universe(nk, nv, strategy):
+def ops_universe(nk, nv, strategy, tuples=True):
   ops = []
   for k in range(nk):
     for v in range(1, nv + 1):
@@ -128,6 +128,12 @@ def ops_universe(nk, nv, strategy):
       ops.append(["set", [k, k2], v])
   for k in range(nk):
     ops.append(["del", k])
+  if nk <= 3 and tuples:   # tuple keys of a deletion: (), (k,), (k, k')
+    ops.append(["delt", []])
+    for k in range(nk):
+      ops.append(["delt", [k]])
+    for k, k2 in itertools.permutations(range(nk), 2):
+      ops.append(["delt", [k, k2]])
   if strategy:
     for k in range(nk):
       ops.append(["delattr", k])
@@ -138,12 +144,17 @@ def rand_op(rng, nk, nv, strategy, p_bad=0.1, p_obs=0.2):
   r = rng.random()
   if r < p_obs:
     qk = rng.choice(OBS_KINDS)
+    if qk == "tup":
+      return ["obs", qk, [rng.randrange(nk) for _ in range(rng.choice([0, 1, 1, 2, 2, 3]))], 0]
     if qk == "v2k":
       return ["obs", qk, rng.randrange(1, nv + 2), rng.randrange(6)]
     return ["obs", qk, rng.randrange(nk + 1) if qk in ("get", "k2k", "gett", "in") else rng.randrange(nk), rng.randrange(6)]
   r = rng.random()
   if strategy and r < 0.09:      # the user chooses / removes the default (a stored strategy or one never stored)
     return ["setdef", rng.randrange(1, nv + 2), rng.randrange(6)] if r < 0.055 else ["deldef"]
+  r = rng.random()
+  if r < 0.07:                   # deletion through a tuple key (never a key): must be refused
+    return ["delt", [rng.randrange(nk) for _ in range(rng.choice([0, 1, 1, 2, 2, 3]))]]
   r = rng.random()
   n = rng.choice([1, 1, 1, 2, 2, 3])
   if nk >= 5 and rng.random() < 0.15:
